@@ -208,7 +208,7 @@ def WF : Call → Prop
   | zaddGT _ m sc => F64.isNaN sc = false ∧ m.length + 8 < 2 ^ 63
   | smove _ _ m => m.length < 2 ^ 63
   | zincrBy _ m _ => m.length + 8 < 2 ^ 63
-  | hincrByFloat _ f _ => f.length + 40 < 2 ^ 63
+  | hincrByFloat _ f _ => f.length + 1040 < 2 ^ 63     -- the new text is at most 1000 bytes (Proofs/FloatDecLen.lean)
   | _ => True
 
 /-- finding regions: calls that create their key and then fail or have nothing to record
